@@ -176,6 +176,10 @@ func CheckPanics(on bool)    {}
 func CheckDeadlock(on bool)  {}
 func MapOrderNondet(on bool) {}
 
+// RacyScope makes every shared-memory access of functions whose name contains scope a scheduling
+// point under the engine (no effect natively).
+func RacyScope(scope string) {}
+
 // Bounded runs f under a resource bound: at most allocBytes allocated and (under the engine) at
 // most loop iterations of any input-controlled loop. Under the engine the bound is an obligation
 // discharged by the solver at every allocation whose size is symbolic; natively the allocation
